@@ -601,6 +601,12 @@ def token_display(ctx, prog):
             names['i'] = l
         elif 'slice::Iter' in tys and 'iter' not in names:
             names['iter'] = l
+    if 'i' in names:
+        # .. and it is a countdown only if the body decrements it
+        decs = [s_ for b_ in body['blocks'] for s_ in b_['s'] if s_['k'] == 'assign' and s_['r'].get('rv') == 'bin' and s_['r'].get('op', '').startswith('Sub')
+                and mir.op_local(s_['r'].get('a') or {}) == names['i']]
+        if not decs:
+            del names['i']
     if len(heads) != 1 or 'i' not in names:
         # the loop was restructured (moved into a helper, written with split_last, ...): the bounded form above stands alone
         ctx.notes.append('TOKEN-FMT.bytes: countdown loop not found in Token::fmt itself; byte strings checked in bounded form (0..4 bytes) only')
@@ -708,7 +714,35 @@ def concrete_slice_prims():
     def split_first(m, cfg, f, args, t):
         return NotImplemented
 
-    return {"std::slice::iter::<impl std::iter::IntoIterator for &'a [T]>::into_iter": into_iter,
+    EN = 'mcv::EnumSliceIter'
+
+    def enumerate_(m, cfg, f, args, t):
+        it = args[0]
+        if not (isinstance(it, Adt) and it.adt == IT):
+            return NotImplemented
+        return Adt(EN, 0, list(it.fields))
+
+    def enum_next(m, cfg, f, args, t):
+        r = args[0]
+        it = m.read_path(cfg.st, r.key, r.path) if isinstance(r, Ref) else None
+        if not (isinstance(it, Adt) and it.adt == EN):
+            return NotImplemented
+        nm, i, n = it.fields
+        if i.c < n.c:
+            from ..absint import Tup
+            m.write_path(cfg.st, r.key, r.path, Adt(EN, 0, [nm, Int.const(i.c + 1), n]))
+            return some(Tup([Int.const(i.c), elem(cfg.st, nm.name, i.c)]))
+        return NONE
+
+    def enum_into_iter(m, cfg, f, args, t):
+        if isinstance(args[0], Adt) and args[0].adt in (EN, IT):
+            return args[0]
+        return NotImplemented
+
+    return {'std::iter::Iterator::enumerate': enumerate_,
+            '<std::iter::Enumerate<I> as std::iter::Iterator>::next': enum_next,
+            '<I as std::iter::IntoIterator>::into_iter': enum_into_iter,
+            "std::slice::iter::<impl std::iter::IntoIterator for &'a [T]>::into_iter": into_iter,
             'std::slice::<impl [T]>::iter': into_iter,
             "<std::slice::Iter<'a, T> as std::iter::Iterator>::next": nxt,
             'std::slice::<impl [T]>::split_last': split_last}
